@@ -82,13 +82,13 @@ theorem perl_check_args_eq (out : List TagCall) (pfx : Extra) (srcLoc : List Cha
   simp only [cast_eq_one, decide_eq_true_eq, Bool.and_eq_true, beq_iff_eq]
   generalize List.filter (fun k => !dst.args.contains k) src.args = missing
   by_cases hc : missing.length = 1 ∧ ok = true
-  · rw [if_pos hc, if_pos hc]
-    simp only []
+  · have hc' : ok = true ∧ missing.length = 1 := ⟨hc.2, hc.1⟩
+    simp only [if_pos hc, if_pos hc']
     rw [forEach_one (fun k => tagMissing "perl-brace-format-string-missing-argument" pfx (.str k) srcLoc dstLoc) _ ?hb2]
     case hb2 => intro _ _; rfl
     simp [List.append_assoc]
-  · rw [if_neg hc, if_neg hc]
-    simp only []
+  · have hc' : ¬ (ok = true ∧ missing.length = 1) := fun h => hc ⟨h.2, h.1⟩
+    simp only [if_neg hc, if_neg hc']
     rw [forEach_one (fun k => tagMissing "perl-brace-format-string-missing-argument" pfx (.str k) srcLoc dstLoc) _ ?hb2]
     case hb2 => intro _ _; rfl
     simp [List.append_assoc]
